@@ -551,7 +551,7 @@ void Interpolation_2D::Save_Function(std::string filename, unsigned int x_points
 // Root finding with Ridder's method
 double Find_Root(std::function<double(double)> func, double xLeft, double xRight, double xAccuracy)
 {
-	const int Max_Iterations = 50;
+	const int Max_Iterations = 100;
 	// 1. Check if xLeft<xRight, otherwise swap.
 	if(xLeft > xRight)
 	{
@@ -597,16 +597,14 @@ double Find_Root(std::function<double(double)> func, double xLeft, double xRight
 			double x3 = (x1 + x2) / 2.0;
 
 			double f3 = func(x3);
-			// New point
+			// New point (rounding must not push it out of the bracket)
 			double x4 = x3 + (x3 - x1) * Sign(f1 - f2) * f3 / sqrt(f3 * f3 - f1 * f2);
-			// Check if we found the root
-			if(fabs(x4 - result) < xAccuracy)
-				return x4;
-			// Prepare next iteration
-			result	  = x4;
+			x4		  = std::max(std::min(x1, x2), std::min(std::max(x1, x2), x4));
 			double f4 = func(x4);
 			if(f4 == 0.0)
-				return result;
+				return x4;
+			bool iterates_converged = (fabs(x4 - result) < xAccuracy);
+			result					= x4;
 			// a) x3 and x4 bracket the root
 			if(Sign(f3, f4) != f3)
 			{
@@ -631,6 +629,30 @@ double Find_Root(std::function<double(double)> func, double xLeft, double xRight
 			{
 				std::cerr << "Error in libphysica::Find_Root(). Ridder's method does not reach the root." << std::endl;
 				std::exit(EXIT_FAILURE);
+			}
+			// Check if we found the root: x4 is one end of the bracket [x1,x2], which contains the root.
+			if(fabs(x2 - x1) < xAccuracy)
+				return x4;
+			// Two successive iterates agree, but this alone does not locate the root. Accept x4 only if the function changes sign within xAccuracy of it.
+			if(iterates_converged)
+			{
+				bool x4_is_x1 = (x4 == x1);
+				double x_far  = x4_is_x1 ? x2 : x1;
+				double x5	  = x4 + Sign(xAccuracy, x_far - x4);
+				x5			  = std::max(std::min(x1, x2), std::min(std::max(x1, x2), x5));
+				double f5	  = func(x5);
+				if(f5 == 0.0 || Sign(f5) != Sign(f4))
+					return x4;
+				if(x4_is_x1)
+				{
+					x1 = x5;
+					f1 = f5;
+				}
+				else
+				{
+					x2 = x5;
+					f2 = f5;
+				}
 			}
 		}
 		std::cout << "Warning in libphysica::Find_Root(): Iterations exceed the maximum. Final value f(" << result << ")=" << func(result) << std::endl;
